@@ -1,3 +1,258 @@
-//! C11 — not built yet.
+//! C11 — formatting preserves meaning and is idempotent.
+//! Every case is a program text `s`.  The real `RoocParser::format()` output is compared byte-for-byte with the
+//! Lean port of the printers applied to the `PreModel` the real parser produced for `s`; and — on the
+//! implementation alone — `format(s)` must parse, format to itself again, and compile to the same `Model` as `s`
+//! (when `s` does not compile: re-parse to the same `PreModel`).  The Lean oracle classifies any deviation by its
+//! root cause (the (parent operator, child operator, side) triple of the first dropped parenthesis, …).
 use crate::case::Case;
-pub fn generate(_seed: u64, _n: usize, _thorough: bool, _corpus: Option<&str>) -> Vec<Case> { vec![] }
+use crate::props::c09::{GenCfg, gen_exp};
+use crate::rng::Rng;
+use crate::sx;
+use crate::syntax::{self, T};
+use indexmap::IndexMap;
+use rooc::RoocParser;
+use std::collections::HashSet;
+
+fn compile(src: &str) -> Result<String, String> {
+    let s = src.to_string();
+    match std::panic::catch_unwind(move || RoocParser::new(s).parse_and_transform(vec![], &IndexMap::new())) {
+        Ok(Ok(m)) => Ok(sx::model(&m)),
+        Ok(Err(e)) => Err(e.lines().next().unwrap_or("").chars().take(80).collect()),
+        Err(_) => Err("panic".into()),
+    }
+}
+
+fn one(src: &str, stream: &str) -> Option<Case> {
+    let s = src.to_string();
+    let parsed = std::panic::catch_unwind(move || RoocParser::new(s).parse());
+    let pm = match parsed {
+        Ok(Ok(pm)) => pm,
+        _ => return None, // not a parseable source text: outside the property's quantifier
+    };
+    let s = src.to_string();
+    let f1 = match std::panic::catch_unwind(move || RoocParser::new(s).format()) {
+        Ok(Ok(f)) => f,
+        Ok(Err(_)) => return None,
+        Err(_) => {
+            let mut c = Case::default();
+            c.show = src.to_string();
+            c.tags = vec![stream.into(), "format-panics".into()];
+            c.impl_violation = Some("RoocParser::format panics".into());
+            c.sig = Some("format-panics".into());
+            return Some(c);
+        }
+    };
+    let before = syntax::pre_model(&pm);
+    let mut c = Case::default();
+    c.req = format!("format {}", before);
+    c.imp = format!("(ok {})", sx::q(&f1));
+    c.show = src.to_string();
+    c.tags = vec![stream.into()];
+    // --- implementation-side facts handed to the oracle
+    let f1c = f1.clone();
+    let re = std::panic::catch_unwind(move || RoocParser::new(f1c).parse());
+    let (after, idem) = match re {
+        Ok(Ok(pm2)) => {
+            let f2 = pm2.to_string();
+            (syntax::pre_model(&pm2), f2 == f1)
+        }
+        Ok(Err(_)) => ("reject".to_string(), false),
+        Err(_) => ("panic".to_string(), false),
+    };
+    let models = match (compile(src), if after == "reject" || after == "panic" { Err("unparsed".into()) } else { compile(&f1) }) {
+        (Ok(a), Ok(b)) => { c.tags.push("compiles".into()); if a == b { "same" } else { "differ" } }
+        (Ok(_), Err(_)) => { c.tags.push("compiles".into()); "broke" }
+        (Err(_), Ok(_)) => { c.tags.push("not-compiling".into()); "repaired" }
+        (Err(_), Err(_)) => { c.tags.push("not-compiling".into()); "na" }
+    };
+    c.oracle = format!("check-format {} {} {} {}", before, after, idem, models);
+    // features of the tree, for the distribution
+    for (k, t) in [("(bin ", "binary"), ("(un ", "unary"), ("(cvar ", "compound-var"), ("(access ", "array-access"), ("(call ", "call"),
+                   ("(block ", "block-fn"), ("(scoped ", "scoped-fn"), ("(let ", "constants"), ("(dom ", "domains"), ("(it ", "iteration"),
+                   ("(prim ", "array-or-graph"), ("(str ", "string"), ("(num ", "float"), ("(bool ", "bool"), ("(cv ", "compound-decl"), ("(tuple ", "tuple-iteration")] {
+        if before.contains(k) { c.tags.push(t.into()); }
+    }
+    if before.contains("true (its") { c.tags.push("logic-assertion".into()); }
+    if before.contains("(c (") { c.tags.push("named-constraint".into()); }
+    c.tags.push(if f1.trim_end() == src.trim_end() { "already-formatted".into() } else { "reformatted".into() });
+    // hypothesis coverage of `parse_format_partial` (roundTrips): no operand of equal precedence on the regrouping side
+    let mut slots: Vec<&rooc::PreExp> = vec![&pm.objective().rhs];
+    for k in pm.constraints() { slots.push(&k.lhs); slots.push(&k.rhs); }
+    c.tags.push(if slots.iter().all(|e| round_trips(e)) { "in-region:parse_format_partial".into() } else { "outside-region:parse_format_partial".into() });
+    c.nontrivial = before.contains("(bin ") || before.contains("(un ");
+    Some(c)
+}
+
+/// mirror of the Lean predicate `roundTrips` (tagging only): the printer emits every parenthesis the parser needs
+fn round_trips(e: &rooc::PreExp) -> bool {
+    use rooc::PreExp::*;
+    match e {
+        BinaryOperation(p, l, r) => {
+            let lbad = matches!(&**l, BinaryOperation(c, _, _) if c.precedence() == p.precedence() && !c.is_left_associative());
+            let rbad = matches!(&**r, BinaryOperation(c, _, _) if c.precedence() == p.precedence() && p.is_left_associative());
+            !lbad && !rbad && round_trips(l) && round_trips(r)
+        }
+        UnaryOperation(_, x) => round_trips(x),
+        FunctionCall(_, f) => f.args.iter().all(round_trips),
+        BlockFunction(b) => b.exps.iter().all(round_trips),
+        BlockScopedFunction(b) => round_trips(&b.exp),
+        _ => true,
+    }
+}
+
+const OPS: [&str; 9] = ["+", "-", "*", "/", "and", "or", "xor", "implies", "iff"];
+
+fn program(objective: &str, constraints: &[String], vars: &[&str], ty: &str) -> String {
+    let mut s = format!("{}\ns.t.\n", objective);
+    for c in constraints { s.push_str(&format!("    {}\n", c)); }
+    if !vars.is_empty() { s.push_str(&format!("define\n    {} as {}\n", vars.join(", "), ty)); }
+    s
+}
+
+/// declare whatever variables the parsed program mentions (so that it compiles)
+fn with_declarations(body: &str, r: &mut Rng) -> String {
+    let s = body.to_string();
+    let vars = match std::panic::catch_unwind(move || RoocParser::new(s).parse()) {
+        Ok(Ok(pm)) => {
+            let mut v = vec![];
+            syntax::variables(&pm.objective().rhs, &mut v);
+            for c in pm.constraints() { syntax::variables(&c.lhs, &mut v); syntax::variables(&c.rhs, &mut v); }
+            v
+        }
+        _ => vec![],
+    };
+    if vars.is_empty() { return body.to_string(); }
+    let ty = *r.pick(&["Real", "Real", "Boolean", "NonNegativeReal", "IntegerRange(0, 5)", "Real(0 - 2, 3 * 2)", "NonNegativeReal(1, 10)"]);
+    format!("{}define\n    {} as {}\n", body, vars.join(", "), ty)
+}
+
+fn render_exp(r: &mut Rng, g: &GenCfg, depth: u32, mode: u8) -> String {
+    loop {
+        let mut t: Vec<T> = vec![];
+        gen_exp(r, g, depth, &mut t);
+        if t.len() <= 25 && syntax::in_domain(&t) { return syntax::render(&t, mode, r); }
+    }
+}
+
+pub fn generate(seed: u64, n: usize, thorough: bool, corpus: Option<&str>) -> Vec<Case> {
+    let mut r = Rng::new(seed);
+    let mut cases: Vec<Case> = vec![];
+    let mut seen: HashSet<String> = HashSet::new();
+    let mut push = |src: String, stream: &str, cases: &mut Vec<Case>| {
+        if !seen.insert(src.clone()) { return; }
+        if let Some(c) = one(&src, stream) { cases.push(c) }
+    };
+
+    // --- corpus: seeded defects / past failures (corpus/C11/*.rooc) and the programs of rooc's own tests, docs and
+    //     examples (corpus/C11/programs/*.rooc) — the suite never formats them
+    if let Some(dir) = corpus {
+        for (sub, tag) in [("", "corpus"), ("programs", "repo-programs")] {
+            let d = if sub.is_empty() { dir.to_string() } else { format!("{}/{}", dir, sub) };
+            if let Ok(rd) = std::fs::read_dir(&d) {
+                let mut files: Vec<_> = rd.filter_map(|e| e.ok()).map(|e| e.path()).filter(|p| p.extension().map(|x| x == "rooc").unwrap_or(false)).collect();
+                files.sort();
+                for f in files {
+                    if let Ok(txt) = std::fs::read_to_string(&f) { push(txt, tag, &mut cases); }
+                }
+            }
+        }
+    }
+
+    // --- every (parent operator, child operator, side): `a p (b c d)` and `(a c b) p d`, in the objective and on both
+    //     sides of a constraint, bare and below another operator
+    let vars = ["a", "b", "d", "e", "x"];
+    for p in OPS { for c in OPS {
+        for (side, e) in [("right", format!("a {} (b {} d)", p, c)), ("left", format!("(a {} b) {} d", c, p))] {
+            let _ = side;
+            push(program(&format!("min {}", e), &["x >= 0".into()], &vars, "Real"), "operator-triples", &mut cases);
+            push(program("max x", &[format!("{} <= e", e), format!("x >= {}", e)], &vars, "Real"), "operator-triples", &mut cases);
+            push(program(&format!("min e + ({})", e), &[format!("k: not ({}) = 1", e)], &vars, "Real"), "operator-triples", &mut cases);
+            if thorough {
+                push(program(&format!("min -({}) * 2", e), &[format!("({}) / 2 >= 1", e), format!("{}", e)], &vars, "Boolean"), "operator-triples", &mut cases);
+            }
+        }
+    } }
+    // unary operators under / above everything, negative constants, implicit multiplication
+    let mut un = vec![];
+    for u in ["-", "not ", "!"] {
+        for o in OPS {
+            un.push(format!("{}(a {} b)", u, o));
+            un.push(format!("({}a) {} b", u, o));
+            un.push(format!("a {} {}b", o, u));
+            un.push(format!("a {} ({}b)", o, u));
+            un.push(format!("{}a {} b", u, o));
+        }
+        for u2 in ["-", "not ", "!"] { un.push(format!("{}({}a)", u, u2)); un.push(format!("{}({}2)", u, u2)); }
+        un.push(format!("{}2", u));
+        un.push(format!("{}(2)", u));
+        un.push(format!("a - {}2", u));
+        un.push(format!("{}2x", u));
+        un.push(format!("{}2(a + b)", u));
+    }
+    for e in ["a / 2x", "a / 2(b + 1)", "a / (2 * b)", "a * 2x", "2x / 3b", "(a)(b)d", "a - (b + d)", "a - (b - d)", "a / (b / d)", "2 3 a", "a / (b)(d)",
+              "2.50 a + 0.10", "1.0 a", "a + 007", "(((a)))", "((a + b)) * (d)", "a / 2 x", "x / 2(a)(b)"] {
+        un.push(e.to_string());
+    }
+    for e in un {
+        push(program(&format!("min {}", e), &[format!("{} >= 0", e)], &vars, "Real"), "unary-implicit", &mut cases);
+    }
+
+    // --- objectives, comparisons, names, assertions
+    for obj in ["min x", "max x", "solve", "MIN x", "Max x", "min 0"] {
+        for cmp in ["<=", ">=", "=", "<", ">"] {
+            push(program(obj, &[format!("x + a {} 2", cmp), format!("c1: a {} x", cmp)], &["a", "x"], "Real"), "objective-comparison", &mut cases);
+        }
+    }
+    for names in [["_u", "$v", "w1"], ["__a", "$_b", "c_1"], ["\\x_1", "x_2", "y_a_b"], ["and_x", "min_1", "x__2"], ["A", "Bc", "d9"]] {
+        push(program(&format!("min {} + {}", names[0], names[1]), &[format!("{} - {} >= {}", names[0], names[1], names[2]), format!("{}", names[2])], &names, "Boolean"), "names", &mut cases);
+        for nm in names { push(program(&format!("min {}", nm), &[format!("{} >= 1", nm)], &[nm], "Real"), "names", &mut cases); }
+    }
+
+    // --- random programs over the expression sub-language (random spelling, parentheses, spacing)
+    let core = GenCfg { calls: false, odd_words: false, bools: true };
+    let mut made = 0;
+    while made < n {
+        made += 1;
+        let depth = 1 + r.below(3) as u32;
+        let mode = r.below(3) as u8;
+        let kind = *r.pick(&["min", "max", "min", "max", "min", "max", "min", "max", "min", "solve"]);
+        let obj = if kind == "solve" { "solve".to_string() } else { format!("{} {}", kind, render_exp(&mut r, &core, depth, mode)) };
+        let k = 1 + r.below(3);
+        let mut body = format!("{}\ns.t.\n", obj);
+        for i in 0..k {
+            let lhs = render_exp(&mut r, &core, depth, mode);
+            let name = if r.chance(1, 4) { format!("c{}: ", i) } else { String::new() };
+            if r.chance(1, 5) { body.push_str(&format!("    {}{}\n", name, lhs)); }
+            else { body.push_str(&format!("    {}{} {} {}\n", name, lhs, r.pick(&["<=", ">=", "=", "<", ">"]), render_exp(&mut r, &core, depth.saturating_sub(1), mode))); }
+        }
+        let full = with_declarations(&body, &mut r);
+        push(full, "random-core", &mut cases);
+    }
+
+    // --- declarations, blocks, iterations: templates with random expressions in their slots
+    let slot = GenCfg { calls: false, odd_words: false, bools: false };
+    let subst = |e: &str| e.replace('x', "x_i").replace('y', "v[i]").replace('z', "n").replace('w', "x_{i + 1}").replace('a', "q").replace('b', "len(v)").replace('c', "x_0").replace('d', "m[i][0]");
+    let m = if thorough { n / 2 } else { n / 6 };
+    for _ in 0..m {
+        let e1 = subst(&render_exp(&mut r, &slot, 2, 0));
+        let e2 = subst(&render_exp(&mut r, &slot, 2, 0));
+        let e3 = subst(&render_exp(&mut r, &slot, 1, 0));
+        let blockk = *r.pick(&["sum", "prod", "min", "max", "avg"]);
+        let block2 = *r.pick(&["min", "max", "avg", "abs"]);
+        let range = *r.pick(&["0..n", "0..=2", "0..len(v)", "1..(n - 1)", "(0 + 0)..=n"]);
+        let t = format!(
+            "{} {}(i in {}) {{ {} }} + {} {{ {}, q }}\ns.t.\n    c_i: {} <= {} for i in {}\n    {} {{ x_0, x_1 }} >= q\nwhere\n    let n = {}\n    let v = [1, 2, 3, 4]\n    let m = [[1, 2], [3, 4], [5, 6], [7, 8]]\n    let q = {}\n    let s = \"a b\"\ndefine\n    x_i as {} for i in 0..=(n + 1)\n",
+            r.pick(&["min", "max"]), blockk, range, e1, block2, e3, e2, e3, range, block2,
+            r.pick(&["2", "3", "1 + 1"]), r.pick(&["2", "2.5", "1 - 3", "2 * (1 + 1)", "10 / (2 * 5)"]),
+            r.pick(&["Real", "Boolean", "IntegerRange(0 - 5, 5)", "Real(0 - q, q)", "NonNegativeReal(0, 2 * (q + 1))"]));
+        push(t, "templates", &mut cases);
+        // graphs, tuple iteration, several iterators, nested scoped functions, escaped and indexed names
+        let e4 = render_exp(&mut r, &slot, 1, 0).replace('x', "y_u_v").replace('y', "c").replace('z', "x_u").replace('w', "k").replace('a', "c").replace('b', "k").replace('d', "2");
+        let t2 = format!(
+            "{} sum((u, v, c) in edges(G)) {{ {} }} + sum(i in 0..k, j in 0..=i) {{ sum(l in j..k) {{ z_i_j * l }} }}\ns.t.\n    flow_u: sum((_, v, c) in edges(G), w in 0..k) {{ y_u_v }} <= {} for u in nodes(G)\n    \\total_1: {} {{ t, \\w_1 }} {} 1\n    y_A_B {} t\nwhere\n    let G = Graph {{ A -> [B: 2, C: -1.5], B -> [C], C }}\n    let k = {}\n    let names = [\"a\", \"b c\"]\ndefine\n    y_u_v as {} for (u, v) in edges(G)\n    x_u as Boolean for u in nodes(G)\n    z_i_j as IntegerRange(0, k) for i in 0..k, j in 0..=i\n    t, \\w_1 as {}\n",
+            r.pick(&["min", "max"]), e4, r.pick(&["1", "k", "len(names)", "2 k"]), r.pick(&["min", "max", "avg"]), r.pick(&["<=", ">=", "="]),
+            r.pick(&["<=", ">=", "=", "<", ">"]), r.pick(&["2", "3"]), r.pick(&["Boolean", "NonNegativeReal", "Real(0, 1)"]), r.pick(&["Real", "NonNegativeReal(0, 10)"]));
+        push(t2, "templates-graph", &mut cases);
+    }
+    cases
+}
